@@ -202,7 +202,7 @@ func c03sBody(sc c03sScn) func(x *vs.Exec) {
 		s.SetInvariant(c03sInvariant(rm))
 		if sc.Setup != nil {
 			s.Go("setup", func() { sc.Setup(e) })
-			if !s.Run() {
+			if !s.Run() && !s.Free {
 				c03sFailRun(x, s, "setup")
 				return
 			}
@@ -230,7 +230,7 @@ func c03sBody(sc c03sScn) func(x *vs.Exec) {
 					c()
 				}
 			})
-			if !s.Run() {
+			if !s.Run() && !s.Free {
 				c03sFailRun(x, s, "release")
 			} else {
 				for _, h := range e.led.holders {
@@ -543,6 +543,22 @@ func TestVerifC03Sched(t *testing.T) {
 				return
 			}
 		}
+		return
+	}
+	if vs.FreeMode() {
+		// free-running pass for the race detector (validates the data-race-freedom assumption of the scheduler)
+		r := vrep.New("C03", "race-pass")
+		dl := vrep.Deadline()
+		n := 0
+		for time.Now().Before(dl) {
+			for _, sc := range scs {
+				runs, _ := vs.FreeRun(t, c03sScenario(sc), 3, dl)
+				n += runs
+			}
+		}
+		r.Executions = int64(n)
+		r.Note("free-running executions: %d", n)
+		r.Flush()
 		return
 	}
 	si, sn := vrep.Shard()
